@@ -6,6 +6,7 @@ import (
 	"os"
 	"path/filepath"
 	"strings"
+	"sync"
 	"time"
 
 	"github.com/ARM-software/golang-utils/utils/subprocess"
@@ -127,7 +128,7 @@ func genC05Tree(ch *Chooser, name string, depth int) *c05Member {
 	}
 	m.suspended = ch.Pick("suspended", 7, 1) == 1
 	if len(m.children) > 0 {
-		m.exitEarly = !m.suspended && ch.Pick("exitearly", 4, 1) == 1
+		m.exitEarly = !m.suspended && ch.Pick("exitearly", 5, 2) == 1
 		// a foreground child makes the parent wait: only the last child may be in the foreground
 		if !m.exitEarly && ch.Pick("fg", 3, 1) == 1 {
 			m.children[len(m.children)-1].foreground = true
@@ -145,11 +146,26 @@ func runC05(rc *RunCtx) {
 	}
 	tree := genC05Tree(ch, "r", 0)
 	startMode := ch.Pick("start", 1, 1)        // 0 Execute, 1 Start
-	stopMode := ch.Pick("stop", 3, 2, 2, 3, 1) // 0 ctx cancel, 1 ctx deadline, 2 Cancel(), 3 Stop(), 4 Restart()
+	stopMode := ch.Pick("stop", 3, 3, 2, 3, 3) // 0 ctx cancel, 1 ctx deadline, 2 Cancel(), 3 Stop(), 4 Restart()
 	if startMode == 0 && stopMode >= 3 {
 		stopMode = ch.Intn("stopexec", 3) // Stop()/Restart() on a blocking Execute make no sense: another goroutine could call them, kept simple
 	}
 	when := ch.Pick("when", 2, 5, 2) // 0 early (tree still spawning), 1 right after the tree is complete, 2 later
+	// daemon style: the command itself exits once it has launched descendants that keep none of its output pipes; what
+	// is stopped later is a process group without its leader
+	if len(tree.children) > 0 && ch.Pick("daemonstyle", 4, 1) == 1 {
+		tree.exitEarly, tree.suspended = true, false
+		var detach func(m *c05Member)
+		detach = func(m *c05Member) {
+			for _, c := range m.children {
+				c.closePipes, c.foreground = true, false
+				detach(c)
+			}
+		}
+		detach(tree)
+		when = 2
+		res.Probe("daemon-style-tree")
+	}
 	startName := []string{"Execute", "Start"}[startMode]
 	stopName := []string{"context-cancel", "context-deadline", "Cancel()", "Stop()", "Restart()"}[stopMode]
 	whenName := []string{"while-spawning", "tree-complete", "later"}[when]
@@ -174,7 +190,8 @@ func runC05(rc *RunCtx) {
 	ctx, cancel := context.WithCancel(context.Background())
 	defer cancel()
 	var deadlineCancel context.CancelFunc
-	p, err := subprocess.New(ctx, rec, "start", "success", "failure", helperPath(), script)
+	expiring := newExpiringContext(ctx)
+	p, err := subprocess.New(expiring, rec, "start", "success", "failure", helperPath(), script)
 	if err != nil {
 		res.Infra = "subprocess.New: " + err.Error()
 		return
@@ -192,7 +209,16 @@ func runC05(rc *RunCtx) {
 	// wait for the scripted instant
 	switch when {
 	case 0:
-		time.Sleep(time.Duration(1+ch.Intn("earlyms", 8)) * time.Millisecond)
+		// "running" starts when the root process exists: a stop request placed before Execute's goroutine has got as far
+		// as starting the command is not a request for a running subprocess (Execute resets the cancellation state first)
+		deadline := time.Now().Add(4 * time.Second)
+		for time.Now().Before(deadline) {
+			if ents, _ := os.ReadDir(filepath.Join(dir, "pids")); len(ents) >= 1 {
+				break
+			}
+			time.Sleep(time.Millisecond)
+		}
+		time.Sleep(time.Duration(ch.Intn("earlyms", 8)) * time.Millisecond)
 	default:
 		deadline := time.Now().Add(4 * time.Second)
 		for time.Now().Before(deadline) {
@@ -232,9 +258,8 @@ func runC05(rc *RunCtx) {
 		cancel()
 		stopDone <- nil
 	case 1:
-		// a deadline cannot be attached after the fact: emulate the expiry of the context's deadline by cancelling the parent
-		_, deadlineCancel = context.WithTimeout(ctx, time.Nanosecond)
-		cancel()
+		// the context given to the library expires (its Err becomes DeadlineExceeded) at the scripted instant
+		expiring.expire()
 		stopDone <- nil
 	case 2:
 		p.Cancel()
@@ -356,4 +381,42 @@ func memberLeftGroup(m *c05Member, name string) bool {
 	}
 	r, _ := walk(m, false)
 	return r
+}
+
+// expiringContext is a context whose deadline expires when the harness says so: Done is closed and Err is
+// context.DeadlineExceeded from then on (a deadline cannot be attached to a running context after the fact, and a
+// scripted instant - "the tree is complete" - is not known in advance). Cancellation of the parent propagates as usual.
+type expiringContext struct {
+	context.Context
+	mu   sync.Mutex
+	done chan struct{}
+	err  error
+}
+
+func newExpiringContext(parent context.Context) *expiringContext {
+	e := &expiringContext{Context: parent, done: make(chan struct{})}
+	go func() {
+		select {
+		case <-parent.Done():
+			e.finish(parent.Err())
+		case <-e.done:
+		}
+	}()
+	return e
+}
+
+func (e *expiringContext) finish(err error) {
+	e.mu.Lock()
+	defer e.mu.Unlock()
+	if e.err == nil {
+		e.err = err
+		close(e.done)
+	}
+}
+func (e *expiringContext) expire()               { e.finish(context.DeadlineExceeded) }
+func (e *expiringContext) Done() <-chan struct{} { return e.done }
+func (e *expiringContext) Err() error {
+	e.mu.Lock()
+	defer e.mu.Unlock()
+	return e.err
 }
